@@ -57,6 +57,13 @@ add("C12", "overlay-c12", "randomised concurrency testing (shuttle: random and P
     "The crate's own cfg(loom) shim is pointed at a shuttle-backed facade in a scratch copy, so the credit counter, the closed flag and the writer waker of the unmodified stream.rs/lib.rs become scheduling points. 79 (quick) scenarios = initial credit 0..2 x 1..3 frames wanted x every short list of acknowledge(n)/close operations performed by another thread; each is explored under ~14k (quick) / 160k (thorough) random and PCT schedules. The writer thread sleeps on its wake-up flag whenever a poll returns Pending, so a lost wake-up is a detected deadlock with a replayable schedule; at the end credit left == initial + grants - frames sent.",
     "Trusted: shuttle's schedulers and its sequentially consistent execution model (C11 weak-memory reorderings of the Relaxed accesses are NOT explored - stated limit), the mutex-based AtomicWaker of the facade. Random exploration, no coverage guarantee.")
 
+add("C14", "vf-app", "bounded-exhaustive enumeration of request deviations (all requests differing from a valid upgrade in <= 2 places, under all 8 server configurations) + random requests, against a reference predicate and a differential (unknown-path) oracle",
+    "The real server::State service is called in-process with crafted requests (method x path x 12 variants of each of the six relevant headers x PSK/obfs/backend configurations): it must answer 101 with the accepted protocol and the RFC 6455 accept hash (computed by an independent SHA-1/base64) exactly when the reference predicate written from the statement holds, and otherwise return a response equal in status, headers and body to the response of the same request on an unknown path (static 404 or a local deterministic backend); /health and /version likewise under obfuscation.",
+    "Trusted: the reference predicate, vf-ref::ws (SHA-1/base64), the local echo backend. The OnUpgrade extension is supplied by the harness as hyper's server connection would; the tunnel start itself is covered by C01.")
+add("C17", "vf-app", "complete enumeration of the configuration matrix (108 combinations x 3 key algorithms) with freshly generated PKIs + random SAN lists + stateful generated reload sequences, against a decision-table oracle",
+    "Real handshakes over in-memory pipes through the crate's tls_connect / make_server_config / make_tls_identity / reload_tls_identity and TlsAcceptor (as serve_connection_tls uses it) with rcgen-generated trusted/other/client CAs and leaves: the connection (handshake plus one byte echoed each way) must succeed exactly when the statement's decision table says so, a server without client CA must not obtain a client certificate, and after a reload new handshakes present the new leaf while established connections keep working.",
+    "Trusted: rcgen-generated PKIs, rustls/webpki as the TLS implementation under configuration. System root store, native-tls and ACME paths are outside the statement and not exercised.")
+
 ENG = {
  "vf-pure": ("/verif/harness/vf-pure", "proptest + bounded-exhaustive enumeration against reference codecs/models (E1)"),
  "vf-sim": ("/verif/harness/vf-sim", "simnet: deterministic simulator around the real penguin-mux crate (E2) and tokio paused-clock engine (E3)"),
